@@ -404,7 +404,10 @@ def run(tier, seed):
             ops.append({"K": "log", "Sev": rng.pick([1, 1, 2, 3]), "Msg": hx(body)})
             if rng.chance(1, 8):
                 ops.append({"K": "read"})
-        r = impl.call("logRotate", MaxSize=mx, Ops=ops)
+        # the file names carry the user name of the process: a name with periods must still be listed and read back
+        uname = rng.pick(["", "", "john.doe", "a.b.c"])
+        rep.count("rotation-user-name:" + ("dotted" if uname else "process user"))
+        r = impl.call("logRotate", MaxSize=mx, UserName=uname, Ops=ops)
         snaps = r.get("snaps")
         rep.case(("rot", mx, tuple(msgs)))
         rep.count("rotation-mode-%d" % mode)
